@@ -202,6 +202,10 @@ def handler (prop : String) (wrong : Bool) : Handler DState where
                               maxOutgoingPacketCount := mo, strategy := parseStrategy strat }
         ({ st with m := .live (init cfg), mon := Monitors.MonState.init cfg, diverged := false }, .ok)
       | _, _, _, _ => (st, .bad "new")
+    | ["note", "adv", l] =>
+      match l.toNat? with
+      | some l => ({ st with mon := Monitors.markAdversary st.mon l }, .ok)
+      | none => (st, .bad "note adv")
     | ["note", _] => (st, .ok)
     | ["snap"] =>
       -- debugging aid (replay files only): print the model's view next to the implementation's
